@@ -233,11 +233,11 @@ Proof.
   autorewrite with csz in Hcpre. rewrite Sri, Sloop in Hcpre.
   eapply rpost_bind.
   { eapply (IHlo genv en out ce p clo p1 fn fe cf pos ret locs st cs g); try eassumption; [inf|].
-    eapply pool_le_trans; [eassumption|]. eapply pool_le_trans; [eassumption|]. eapply pool_le_trans; eassumption. }
+    eapply pool_le_trans; [exact P2|]. eapply pool_le_trans; [exact P3|exact Hpool]. }
   intros vlo o1 m _ [-> Hvlo]; cbv iota beta.
   eapply rpost_bind.
   { eapply (IHhi genv en o1 ce p1 chi p2 fn fe cf _ ret locs (mval_of vlo :: st) cs g); try eassumption; [inf|].
-    eapply pool_le_trans; eassumption. }
+    eapply pool_le_trans; [exact P3|exact Hpool]. }
   intros vhi o2 m _ [-> Hvhi]; cbv iota beta.
   destruct vlo as [a|?| |?]; rt. destruct vhi as [b|?| |?]; rt.
   cbn [val_ok mval_of] in *.
@@ -290,7 +290,8 @@ Proof.
   eapply Reach_rebase with (locs1 := locsG); [exact LG|apply agree_keeps; exact AgG|].
   replace (pos + (csize (for_pre clo chi (length ce)) + (7 + 5 + 10 + csize cb + 16 + 5))) with (top + 7 + 5 + 10 + csize cb + 16 + 5)
     by (unfold top; lia).
-  replace a with (a + Z.of_nat 0)%Z at 2 by lia.
+  replace (exec_for fns fuel genv en x a b body o2) with (exec_for fns fuel genv en x (a + Z.of_nat 0) b body o2)
+    by (f_equal; lia).
   eapply (IHf genv en o2 ce p2 cb ce1 p3 L fn fe cf top ret locsG st cs g a b 0); try eassumption.
   - inf.
   - eapply agree_match_env; eassumption.
@@ -299,7 +300,6 @@ Proof.
   - unfold locsG. rewrite nth_error_set_nth_ne by lia. unfold locsF. rewrite nth_error_set_nth_eq by lia.
     rewrite i64_signed by reflexivity. reflexivity.
   - apply nth_error_set_nth_eq. lia.
-  - unfold fuel_small in Hfuel. lia.
 Qed.
 
 End For.
